@@ -15,8 +15,6 @@ pub type VersionId = Uuid;
 //@include lemmas/undo.rs
 //@include regions/undo_impl.rs
 // ---- functions these properties depend on that are NOT verified (outside the verifier's reach): hashed; a change -> UNDECIDED
-//@watch C07 :: src/replica.rs :: impl<S: Storage> Replica<S> :: fn commit_reversed_operations
-//@watch C07 :: src/replica.rs :: impl<S: Storage> Replica<S> :: fn get_undo_operations
 //@watch C07 :: src/taskdb/mod.rs :: impl<S: Storage> TaskDb<S> :: fn commit_reversed_operations
 //@watch C07 :: src/taskdb/mod.rs :: impl<S: Storage> TaskDb<S> :: fn get_undo_operations
 //@include prelude/tail.rs
